@@ -16,7 +16,8 @@ Mapping of observed events to model steps: `put` → put; `bbegin lo hi` → flu
 enqueued something is not observable at that moment); `tround n` → notifyCommit (some n) ; commitBegin  (the enqueue is placed
 at the latest possible instant; lastCommitted is monotone, so a target accepted here was ≤ lastCommitted… only from here on:
 see claims note); `tend ok|err` → commitTxn | commitAbort (a transaction without `tround` is auxiliary: no step);
-`tdone d` → commitPost (d must be the model's dbRound); `conf r` → waitCommit r; `reload` → crash (only when nothing is in flight).
+`tdone d` → commitPost (d must be the model's dbRound; the harness logs it only at its own stops, so an observed in-memory
+dbRound — `tbegin a`, `reload d` — equal to the round of a committed-but-unposted transaction also counts as postCommit); `conf r` → waitCommit r; `reload` → crash (only when nothing is in flight).
 -/
 namespace AlgoVerif.Driver.C09
 open AlgoVerif.Drv AlgoVerif.Model.Durable
